@@ -6,6 +6,7 @@ import (
 	"io/fs"
 	"os"
 	"path"
+	"path/filepath"
 	"sort"
 	"strconv"
 	"strings"
@@ -411,6 +412,20 @@ func treeLabels(tree []Entry) []string {
 		abs := t
 		if !strings.HasPrefix(t, "/") {
 			abs = path.Join(path.Dir(lp), t)
+			// a relative target that climbs out of the tree's root: the backup PrefixFS refuses to
+			// store such a link (C05), so operations on it fail in tryBackup
+			depth := len(compsGo(path.Dir(lp)))
+			for _, cmp := range compsGo(t) {
+				if cmp == ".." {
+					depth--
+					if depth < 0 {
+						ls = append(ls, "escaping-link")
+						break
+					}
+				} else if cmp != "." {
+					depth++
+				}
+			}
 		} else if path.Clean(t) != t {
 			ls = append(ls, "unclean-abs-target")
 		}
@@ -433,7 +448,7 @@ func treeLabels(tree []Entry) []string {
 	return ls
 }
 
-var labelPriority = []string{"relative-name", "link-topology", "unclean-abs-target", "through-final-symlink", "rename-nonempty-dir", "rename-onto-dir", "type-change", "link-over-tracked", "new-link-topology"}
+var labelPriority = []string{"escaping-link", "relative-name", "through-final-symlink", "rename-nonempty-dir", "link-over-tracked", "dangling-link-parent", "link-topology", "unclean-abs-target", "rename-onto-dir", "new-link-topology"}
 
 func knownClass(labels map[string]bool) string {
 	for _, l := range labelPriority {
@@ -484,14 +499,18 @@ func runHistCase(c *HistCase, prop string) (*caseOut, error) {
 
 	var s0, b0 []string
 	inTx := false
-	forced := false     // a successful ForceBackup happened in this transaction (C17's scenario)
-	skipOracle := false // the transaction left the domain of C01 by a use the properties exclude (ForceBackup of a directory)
+	var planted []string   // C13: (path, content) pairs planted in the backup directory
+	foreignBackup := false // foreign content was planted in the backup directory (C13): Rollback may report it
+	forced := false        // a successful ForceBackup happened in this transaction (C17's scenario)
+	skipOracle := false    // the transaction left the domain of C01 by a use the properties exclude (ForceBackup of a directory)
 	begin := func() {
 		s0 = blankDirTimes(e.rc.Dump(e.baseSub))
 		b0 = e.rc.Dump(e.bakSub)
 		inTx = true
 		skipOracle = false
 		forced = false
+		foreignBackup = false
+		planted = nil
 	}
 	viol := func(p, what string) {
 		// the snapshot oracles are reported under the property whose scenario this run exercises
@@ -508,6 +527,15 @@ func runHistCase(c *HistCase, prop string) (*caseOut, error) {
 			v.Known = k
 		}
 		out.viol = append(out.viol, v)
+	}
+	// C03: a twin of the base tree driven directly through PrefixFS(OSFS)
+	var twin backupfs.FS
+	if prop == "C03" && c.Layering != "nested" {
+		if err := e.rc.Build("/t/twin", c.Tree); err != nil {
+			return nil, err
+		}
+		e.rc.MarkStart()
+		twin, _ = backupfs.NewPrefixFS(backupfs.NewOSFS(), e.rc.Root+"/t/twin")
 	}
 	// C02: crash-point oracle, evaluated before every primitive call of a transaction
 	var originals []string
@@ -534,8 +562,44 @@ func runHistCase(c *HistCase, prop string) (*caseOut, error) {
 			for _, l := range e.labelsBefore(op) {
 				out.labels[l] = true
 			}
+			var want16 string
+			if prop == "C16" {
+				want16 = e.osParents(op)
+			}
+			mapBefore := e.mapFields()
 			res := execOp(e.rc, e.bfs, op)
 			out.count("op." + op.K + "." + res[0])
+			if prop == "C16" && want16 != "" {
+				if got := e.mutatedPath(op); got != "" && got != want16 {
+					viol("C16", fmt.Sprintf("%v: BackupFS operated on %q, the OS resolves the caller's path to %q", op, got, want16))
+				} else if got != "" {
+					out.count("c16.checked")
+				}
+			}
+			if twin != nil {
+				tres := execOp(e.rc, twin, op)
+				out.count("twin.compared")
+				okB, okT := res[0] == "ok", tres[0] == "ok"
+				for _, l := range e.labelsTwin(op) {
+					out.labels[l] = true
+				}
+				if op.K == "removeall" && okB && !okT && tres[1] == "notDir" {
+					// adopted reading (DESIGN C03): "RemoveAll of a path that does not exist succeeds"
+					// covers every path name resolution cannot reach (ENOENT and ENOTDIR)
+					out.count("c03.removeall-enotdir-reading")
+				} else if okB != okT {
+					viol("C03", fmt.Sprintf("%v: through BackupFS %v, directly %v", op, res, tres))
+				} else if okB && isReadOnly(op) && strings.Join(res, "\x00") != strings.Join(tres, "\x00") {
+					viol("C03", fmt.Sprintf("%v returned %.200q through BackupFS and %.200q directly", op, res, tres))
+				}
+				bt, tt := blankDirTimes(e.rc.Dump(e.baseSub)), blankDirTimes(e.rc.Dump("/t/twin"))
+				if !dumpEqual(bt, tt) {
+					viol("C03", fmt.Sprintf("after %v the base tree differs from the directly driven twin: %s", op, dumpDiff(tt, bt)))
+				}
+				if isReadOnly(op) && !dumpEqual(mapBefore, e.mapFields()) {
+					viol("C03", fmt.Sprintf("read-only %v changed the tracked paths", op))
+				}
+			}
 			out.b.Add(tag, bfsOpLine(op), line(res...))
 			for _, l := range e.labelsAfter(op) {
 				out.labels[l] = true
@@ -554,12 +618,17 @@ func runHistCase(c *HistCase, prop string) (*caseOut, error) {
 			s1 := blankDirTimes(e.rc.Dump(e.baseSub))
 			b1 := e.rc.Dump(e.bakSub)
 			if len(c.Faults) == 0 && !skipOracle {
-				if rerr != nil {
+				if rerr != nil && !foreignBackup {
 					viol("C01", fmt.Sprintf("Rollback returned an error: %.300v", rerr))
 				} else if !dumpEqual(s0, s1) {
 					viol("C01", "base tree differs after Rollback: "+dumpDiff(s0, s1))
 				}
-				if rerr == nil {
+				for k := 0; k+1 < len(planted); k += 2 {
+					if got, err := os.ReadFile(e.rc.Root + e.bakSub + planted[k]); err != nil || string(got) != planted[k+1] {
+						viol("C13", fmt.Sprintf("foreign file %s in the backup directory did not survive Rollback (%v)", planted[k], err))
+					}
+				}
+				if rerr == nil && !foreignBackup {
 					if !dumpEqual(b0, b1) {
 						viol("C07", "backup tree differs after a successful Rollback: "+dumpDiff(b0, b1))
 					}
@@ -589,6 +658,26 @@ func runHistCase(c *HistCase, prop string) (*caseOut, error) {
 			}
 			out.b.Add(tag, line("bfs.reload"), "ok")
 			out.count("reload")
+		case st.Do == "ext":
+			// C13: an external actor modifies the base or backup directory directly
+			st.Arg = e.resolveExt(st.Arg, i, c.Tree)
+			if err := e.applyExt(st.Arg); err != nil {
+				return nil, fmt.Errorf("ext %v: %w", st.Arg, err)
+			}
+			sub := e.baseSub
+			if st.Arg[0] == "backup" {
+				sub = e.bakSub
+			}
+			out.b.Add(tag, line("os.creat", "", modelRoot+sub+st.Arg[1], st.Arg[2]), line("ok", modelRoot+sub+st.Arg[1]))
+			if st.Arg[0] == "base" {
+				// the expected post-Rollback tree carries the external change
+				s0, _ = rebaselineExt(s0, blankDirTimes(e.rc.Dump(e.baseSub)), st.Arg[1])
+				originals = nil
+			} else {
+				planted = append(planted, st.Arg[1], st.Arg[2])
+				foreignBackup = true
+			}
+			out.count("ext." + st.Arg[0])
 		case st.Do == "force":
 			// C17: a successful ForceBackup(p) of a non-directory moves the baseline at p to "now"
 			fp := path.Clean("/" + st.Arg[0])
@@ -723,13 +812,15 @@ func mergeCase(res *Result, b *Batch, out *caseOut, prop string) {
 
 // HistGen are the knobs of the history generator.
 type HistGen struct {
-	Layering  string
-	NSteps    int
-	Rollbacks int  // number of transactions (each ends with a rollback)
-	Reload    bool // persist/reload points
-	Force     bool
-	ReadOnly  bool
-	Wild      bool // unrestricted: relative names, any link topology
+	Layering   string
+	NSteps     int
+	Rollbacks  int  // number of transactions (each ends with a rollback)
+	Reload     bool // persist/reload points
+	Force      bool
+	ReadOnly   bool
+	Wild       bool // unrestricted: relative names, any link topology
+	NoRollback bool // C03: the twin tree is not rolled back
+	Ext        bool // C13: external modifications interleaved
 }
 
 func genHistCase(r *RNG, g HistGen, umask int) *HistCase {
@@ -775,10 +866,15 @@ func genHistCase(r *RNG, g HistGen, umask int) *HistCase {
 		c.Tree = append(pre, keep...)
 		sort.SliceStable(c.Tree, func(i, j int) bool { return strings.Count(c.Tree[i].Path, "/") < strings.Count(c.Tree[j].Path, "/") })
 	}
+	if g.Ext {
+		c.Tree = append(c.Tree, Entry{Path: "/zzkeep", Kind: "file", Mode: 0o644, MTime: oldBase + 77, Data: "keep-0"})
+	}
 	og := &OpGen{Mutating: allMutators, ReadOnly: g.ReadOnly, Unclean: true, Relative: g.Wild}
 	var paths []string
 	for _, e := range c.Tree {
-		paths = append(paths, e.Path)
+		if !strings.Contains(e.Path, "zz") {
+			paths = append(paths, e.Path)
+		}
 	}
 	if g.Layering == "nested" {
 		paths = append(paths, c.Loc, c.Loc+"/x", path.Dir(c.Loc))
@@ -803,6 +899,20 @@ func genHistCase(r *RNG, g HistGen, umask int) *HistCase {
 			if g.Force && r.Chance(1, 4) {
 				c.Steps = append(c.Steps, Step{Do: "force", Arg: []string{pickPath(r, paths)}})
 			}
+			if g.Ext && r.Chance(1, 3) {
+				side := "base"
+				if r.Chance(1, 3) {
+					side = "backup"
+				}
+				where := "@dir"
+				if side == "base" && r.Chance(1, 3) {
+					where = "/zzkeep"
+				}
+				c.Steps = append(c.Steps, Step{Do: "ext", Arg: []string{side, where, fmt.Sprintf("ext-%d", r.Intn(1000))}})
+			}
+		}
+		if g.NoRollback {
+			continue
 		}
 		c.Steps = append(c.Steps, Step{Do: "rollback"})
 		if r.Chance(1, 4) {
@@ -824,6 +934,13 @@ func histGenFor(prop string, r *RNG) HistGen {
 		g.Force = true
 	case "C04":
 		g.Layering = "nested"
+	case "C03":
+		g.NoRollback = true
+		g.NSteps = 10
+	case "C13":
+		g.Ext = true
+	case "C16":
+		g.Wild = r.Chance(1, 2)
 	}
 	if r.Chance(1, 4) {
 		g.Wild = true
@@ -924,4 +1041,204 @@ func streamHist(cfg *Config, res *Result) error {
 	res.DistinctNontrivial = len(distinct)
 	res.Distribution["driver.lines"] = b.Len()
 	return nil
+}
+
+func isReadOnly(op Op) bool {
+	switch op.K {
+	case "stat", "lstat", "readlink", "read":
+		return true
+	}
+	return false
+}
+
+// dumpContains: every entry of want is present, unchanged, in got.
+func dumpContains(got, want []string) bool {
+	m := map[string]string{}
+	for i := 0; i+6 < len(got); i += 7 {
+		f := append([]string(nil), got[i+1:i+7]...)
+		if f[0] == "dir" {
+			f[4] = "*"
+		}
+		m[got[i]] = strings.Join(f, "|")
+	}
+	for i := 0; i+6 < len(want); i += 7 {
+		f := append([]string(nil), want[i+1:i+7]...)
+		if f[0] == "dir" {
+			f[4] = "*"
+		}
+		if m[want[i]] != strings.Join(f, "|") {
+			return false
+		}
+	}
+	return true
+}
+
+// applyExt: arg = [side, path, content]: write a file directly on disk (created or overwritten).
+func (e *histEnv) applyExt(arg []string) error {
+	sub := e.baseSub
+	if arg[0] == "backup" {
+		sub = e.bakSub
+	}
+	return os.WriteFile(e.rc.Root+sub+arg[1], []byte(arg[2]), 0o666)
+}
+
+// rebaselineExt: like rebaseline, for an external write (no C17 preconditions).
+func rebaselineExt(s0, cur []string, p string) ([]string, bool) {
+	var out []string
+	var now []string
+	for i := 0; i+6 < len(cur); i += 7 {
+		if cur[i] == p {
+			now = cur[i : i+7]
+		}
+	}
+	done := false
+	for i := 0; i+6 < len(s0); i += 7 {
+		if s0[i] == p {
+			out = append(out, now...)
+			done = true
+			continue
+		}
+		if !done && now != nil && s0[i] > p {
+			out = append(out, now...)
+			done = true
+		}
+		out = append(out, s0[i:i+7]...)
+	}
+	if !done {
+		out = append(out, now...)
+	}
+	return out, false
+}
+
+// labelsTwin: divergences from the directly driven twin that are recorded findings or adopted
+// readings (DESIGN C03): evaluated on the twin tree right after the op ran on both.
+func (e *histEnv) labelsTwin(op Op) []string {
+	var ls []string
+	names := []string{op.A[0]}
+	if op.K == "rename" {
+		names = []string{op.A[0], op.A[1]}
+	} else if op.K == "symlink" {
+		names = []string{op.A[1]}
+	}
+	for _, n := range names {
+		// a dangling (or looping) symlink among the parents: the resolver substitutes the link's
+		// target where the OS cannot resolve the path at all (D20)
+		p := path.Clean("/" + n)
+		ch := chainOf(p)
+		if op.K == "mkdirall" {
+			ch = append(ch, p) // MkdirAll also walks the final component
+		}
+		for _, anc := range ch[:len(ch)-1] {
+			fi, err := os.Lstat(e.rc.Root + "/t/twin" + anc)
+			if err == nil && fi.Mode()&fs.ModeSymlink != 0 {
+				if _, serr := os.Stat(e.rc.Root + "/t/twin" + anc); serr != nil {
+					ls = append(ls, "dangling-link-parent")
+				}
+			}
+		}
+	}
+	return ls
+}
+
+// osParents: the path the OS gives the caller's name, parents resolved, final component kept,
+// a missing tail kept lexically (independent of the repo's resolver).  "" = not applicable.
+func (e *histEnv) osParents(op Op) string {
+	name := op.A[0]
+	if op.K == "rename" || op.K == "symlink" {
+		name = op.A[1]
+	}
+	if !strings.HasPrefix(name, "/") {
+		return ""
+	}
+	root := e.rc.Root + e.baseSub
+	cl := path.Clean(name)
+	if cl == "/" {
+		return "/"
+	}
+	dir, last := path.Dir(cl), path.Base(cl)
+	// resolve the longest existing prefix of dir with the OS, keep the rest lexically
+	comps := compsGo(dir)
+	cur := "/"
+	for i, cmp := range comps {
+		next := path.Join(cur, cmp)
+		rp, err := realpathBelow(root, next)
+		if err != nil {
+			if fi, lerr := os.Lstat(root + next); lerr == nil && fi.Mode()&fs.ModeSymlink != 0 {
+				return "" // a dangling or looping link among the parents names nothing under OS semantics (D20)
+			}
+			return path.Join(append([]string{cur}, append(comps[i:], last)...)...)
+		}
+		cur = rp
+	}
+	return path.Join(cur, last)
+}
+
+// realpathBelow resolves p (a path inside the case root) fully and returns it relative to root.
+func realpathBelow(root, p string) (string, error) {
+	rp, err := filepathEvalSymlinks(root + p)
+	if err != nil {
+		return "", err
+	}
+	if rp == root {
+		return "/", nil
+	}
+	if !strings.HasPrefix(rp, root+"/") {
+		return "", fmt.Errorf("escapes")
+	}
+	return strings.TrimPrefix(rp, root), nil
+}
+
+// mutatedPath: the path argument of the (last) mutating base call the operation issued.
+func (e *histEnv) mutatedPath(op Op) string {
+	recs := e.baseSpy.Snapshot()
+	want := map[string]string{"creat": "create", "write": "openfile", "mkdir": "mkdir", "mkdirall": "mkdirall", "remove": "remove",
+		"rename": "rename", "symlink": "symlink", "chmod": "chmod", "chown": "chown", "lchown": "lchown", "chtimes": "chtimes"}[op.K]
+	if want == "" {
+		return ""
+	}
+	for i := len(recs) - 1; i >= 0; i-- {
+		if recs[i].Method == want {
+			if want == "rename" || want == "symlink" {
+				return recs[i].Args[1]
+			}
+			return recs[i].Args[0]
+		}
+	}
+	return ""
+}
+
+var filepathEvalSymlinks = filepath.EvalSymlinks
+
+// resolveExt turns the "@dir" placeholder into a fresh name inside a directory that exists now.
+func (e *histEnv) resolveExt(arg []string, i int, initial []Entry) []string {
+	if arg[1] != "@dir" {
+		return arg
+	}
+	if arg[0] == "base" {
+		// a directory that predates the transaction and is still a real directory
+		dir := ""
+		for _, en := range initial {
+			if en.Kind == "dir" {
+				if fi, err := os.Lstat(e.rc.Root + e.baseSub + en.Path); err == nil && fi.IsDir() {
+					dir = en.Path
+				}
+			}
+		}
+		return []string{arg[0], fmt.Sprintf("%s/zznew%d", dir, i), arg[2]}
+	}
+	sub := e.baseSub
+	if arg[0] == "backup" {
+		sub = e.bakSub
+	}
+	d := e.rc.Dump(sub)
+	dir := ""
+	for k := 0; k+6 < len(d); k += 7 {
+		if d[k+1] == "dir" && !strings.Contains(d[k], "zz") {
+			// a real directory (not reached through a link)
+			if fi, err := os.Lstat(e.rc.Root + sub + d[k]); err == nil && fi.IsDir() {
+				dir = d[k]
+			}
+		}
+	}
+	return []string{arg[0], fmt.Sprintf("%s/zznew%d", dir, i), arg[2]}
 }
